@@ -140,13 +140,13 @@ theorem getElem?_of_drop_take {α : Type} (file side : List α) (p : Nat)
 theorem admissible_of_inplace (file : List Line) (h : Hunk) (iw : Bool) (maxFuzz : Int) (p : Nat)
     (hF : 0 ≤ maxFuzz) (hne : h.lines ≠ [])
     (hold : (file.drop p).take (oldOf h.lines).length = oldOf h.lines)
-    (hfit : p + (oldOf h.lines).length ≤ file.length) (hpos : 0 < (oldOf h.lines).length) :
+    (hfit : p + (oldOf h.lines).length ≤ file.length) (_hpos : 0 < (oldOf h.lines).length) :
     admissibleB file h iw maxFuzz p 0 = true := by
   unfold admissibleB
   rw [fuzzPair_zero]
   have hlen : 0 < h.lines.length := List.length_pos_iff.2 hne
   simp only [Bool.and_eq_true, decide_eq_true_eq, List.all_eq_true, List.mem_range, Bool.or_eq_true]
-  refine ⟨⟨⟨⟨⟨by simpa using hF, by omega⟩, by omega⟩, by omega⟩, by omega⟩, ?_⟩
+  refine ⟨⟨⟨⟨by simpa using hF, by omega⟩, by omega⟩, by omega⟩, ?_⟩
   intro i hi
   right
   rw [getElem?_of_drop_take file (oldOf h.lines) p hold i hi, List.getElem?_eq_getElem hi]
